@@ -188,6 +188,12 @@ pub fn cmd(_args: &[String]) {
                     Err(p) => ("panic".to_string(), String::new(), String::new(), panic_message(&p)),
                 }
             }
+            // parse only: dump of the AST (positions kept; the driver normalises)
+            "parse" => match catch_unwind(AssertUnwindSafe(|| crate::parse::dump_raw(src))) {
+                Ok(Ok(d)) => ("ok".to_string(), d, String::new(), String::new()),
+                Ok(Err(e)) => ("err".to_string(), String::new(), String::new(), e),
+                Err(p) => ("panic".to_string(), String::new(), String::new(), panic_message(&p)),
+            },
             // typecheck only: the reported type of the expression
             "typecheck" => {
                 let vm = entry.0.clone();
